@@ -164,6 +164,9 @@ func (p *parser) parseBinaryExpr(left Node) Node {
 	if expType == EMPTY_ARRAY && binaryExp.Right.Type().Name == ARRAY {
 		binaryExp.T = binaryExp.Right.Type() // array concatenation e.g. [] + [1 2]
 	}
+	if !isComparisonOp(tok.Type) && binaryExp.Right.Type().Fixed {
+		binaryExp.T = fixedType(binaryExp.T) // [1] + x with a variable x is not a constant
+	}
 	errCount := len(p.errors)
 	p.validateBinaryType(binaryExp)
 	if len(p.errors) > errCount {
